@@ -221,13 +221,54 @@ def rep_cases(cases):
             out.append((r["id"] + ".gsame", "g_dec_agrees %d %s %s (gzero %s) %s %s" % (r["ver"], r["type_coq"], r["dest_gty"], r["dest_gty"], src, gobs("ok", r["same_null"], r["same_g"]))))
         if r.get("dec_g") and r.get("dec_class") == "ok":
             out.append((r["id"] + ".giface", "g_dec_agrees %d %s GIface GVNilIface %s %s" % (r["ver"], r["type_coq"], src, gobs("ok", r["dec_null"], r["dec_g"]))))
+    return out + alt_cases(cases)
+
+
+def alt_cases(cases):
+    """the bytes of every container case decoded into one more typed destination (maps keyed by interface{}, untyped containers, array /
+    struct / pointer keys): outcome (ok / err, e.g. the refusal of an unhashable key) and value against the Go-representation model"""
+    out = []
+    for r in cases:
+        if not r.get("alt_gty") or r.get("enc_class") not in ("ok", "null") or not usable(r) or len(r.get("alt_g", "")) > 3 * MAX_HEX:
+            continue
+        src = '(Some (hx "%s"))' % r["enc_hex"] if r["enc_class"] == "ok" else "None"
+        out.append((r["id"] + ".galt", "g_dec_agrees %d %s %s (gzero %s) %s %s" % (r["ver"], r["type_coq"], r["alt_gty"], r["alt_gty"], src,
+                                                                                  gobs(r["alt_class"], r.get("alt_null", False), r.get("alt_g", "GVNilIface")))))
     return out
+
+
+def reuse_findings(recs, null_only=False):
+    """Destination reuse judged WITHOUT the model: a variable that already holds a value (no NULLs, no empty containers, or an arbitrary one)
+    must afterwards hold exactly the decoded value - nothing of the old one may survive at a position where the new value has a NULL, a
+    shorter list, ... - and a NULL / empty input must report wasNull and leave the zero value.  Types containing a CQL map are left to the
+    model comparison: a Go map variable that is not nil keeps its old entries (adjustMapSize re-uses the map; documented observation).
+    null_only: only the records that involve a NULL (C14).  Returns (findings, evaluations)."""
+    findings, n = [], 0
+    for r in recs:
+        if r["kind"] != "reuse" or "map<" in r["type_cql"]:
+            continue
+        if null_only and r["input"] == "value" and "VNull" not in r["val_coq"]:
+            continue
+        n += 1
+        if r["input"] == "value":
+            bad = r["class"] != "ok" or not r.get("result_equal") or r.get("was_null")
+            expected = r["val_coq"]
+        else:
+            bad = r["class"] != "ok" or not r.get("was_null") or not r.get("zeroed")
+            expected = "wasNull = true and the zero value"
+        if bad:
+            observed = r.get("result_abs", "") if r["class"] == "ok" else "%s %s" % (r["class"], r.get("err", "")[:200])
+            findings.append({"kind": "destination-reuse", "type_cql": r["type_cql"], "rep": r["rep"], "ver": r["ver"], "prefilled": r.get("prefill_abs", "")[:400], "input": r["input"],
+                             "decoded_bytes": r.get("hex", ""), "expected": expected[:400], "observed": str(observed)[:400], "was_null": r.get("was_null"),
+                             "what": "%s (%s input) into a %s variable already holding %s: expected %s, got %s" % (
+                                 r["type_cql"], r["input"], r["rep"], r.get("prefill_abs", "")[:120], expected[:120], str(observed)[:120])})
+    return findings, n
 
 
 def reuse_cases(recs):
     out = []
     for r in recs:
-        if r["kind"] != "reuse":
+        if r["kind"] != "reuse" or not r.get("gty"):
             continue
         src = {"value": '(Some (hx "%s"))' % r["hex"], "null": "None", "empty": "(Some [])"}[r["input"]]
         out.append((r["id"], "g_dec_agrees %d %s %s %s %s %s" % (r["ver"], r["type_coq"], r["gty"], r["prefill_g"], src, gobs(r["class"], r.get("was_null", False), r.get("result_g", "GVNilIface")))))
